@@ -99,6 +99,10 @@ def oracle(line: str, obs: Obs):
         if int(size["sockPeers"]) > nlive or int(size["half"]) > nlive:
             fails.append({"what": "a closed connection is still held in the node's socket / pending-connection tables",
                           "event": ev[:200], "real": f"{size} live={nlive}"})
+        zombies = [l for l in lines if l.startswith("ZOMBIE ")]
+        if zombies and t[0] not in ("wr", "dial", "sethbh", "outcome", "mark"):
+            fails.append({"what": "a connection whose connect() failed at once is still registered / its socket is still open",
+                          "event": ev[:200], "real": "; ".join(zombies)})
         closed_in_tables = [k for k, c in conns.items() if c["state"] == "CLOSED" and c["live"] == "1" and
                             t[0] not in ("wr", "dial", "sethbh", "outcome", "mark")]      # (events that do not run the node)
         if closed_in_tables:
